@@ -321,9 +321,9 @@ def fmtJournal (j : List JEntry) : String :=
 def fmtShadow (sh : Regs) : String := hexBytes (DS.cfgAddrs.map sh)
 def fmtChip (c : Chip) : String := hexBytes ((List.range 128).map c.regs)
 
-def fmtObs (quiet : Bool) (w : World) (o : Outcome) : String :=
+def fmtObs (quiet : Bool) (j : List JEntry) (w : World) (o : Outcome) : String :=
   let dumps := if quiet then "-;-" else s!"{fmtShadow w.shadow};{fmtChip w.chip}"
-  s!"{fmtOutcome o};{fmtJournal w.journal};{dumps};{if w.chip.csHigh then 1 else 0}"
+  s!"{fmtOutcome o};{fmtJournal j};{dumps};{if w.chip.csHigh then 1 else 0}"
 
 def failsOf (l : List Nat) : Nat → Bool := fun i => l.contains i
 
@@ -334,20 +334,20 @@ def toArray (r : Regs) : Array Byte := Array.ofFn (n := 128) (fun i => r i.val)
 
 def runCase (c : Case) : String :=
   let chip := Chip.powerOn (fun a => c.low.getD a 0#8) c.pos c.neg c.fifo
-  let (w, o) := runCtor c.dev (failsOf c.ctorFaults) chip c.ctor
-  let first := fmtObs c.quiet w o
+  let (j, w, o) := runCtor c.dev (failsOf c.ctorFaults) chip c.ctor
+  let first := fmtObs c.quiet j w o
   match o with
   | .ok _ =>
     let t := c.ctor.transport c.dev
     let (_, outs) := c.ops.foldl (fun (acc : World × List String) (opf : Op × List Nat) =>
       let (w, outs) := acc
-      let (w', o) := runOp t (failsOf opf.2) w opf.1
+      let (j, w', o) := runOp t (failsOf opf.2) w opf.1
       -- compact the closure chains (evaluated here, strictly, once per operation);
       -- no address ≥ 128 is ever read or written
       let ca := toArray w'.chip.regs
       let sa := toArray w'.shadow
       let w' := { w' with chip := { w'.chip with regs := ofArray ca }, shadow := ofArray sa }
-      (w', outs ++ [fmtObs c.quiet w' o])) (w, [])
+      (w', outs ++ [fmtObs c.quiet j w' o])) (w, [])
     " | ".intercalate (c.id :: first :: outs)
   | _ => " | ".intercalate [c.id, first]
 
